@@ -108,7 +108,7 @@ fn determinism(seed: u64, runs: u64) -> i32 {
                                 break;
                             }
                             let sd = runner::run_seed(seed, id, b.name, i);
-                            let o = runner::exec_run(b.f, rng::Tape::generate(sd), false);
+                            let o = runner::exec_run(b.scn(), rng::Tape::generate(sd), false);
                             let h = o.log_hash ^ (o.violations.len() as u64) ^ rng::mix(&o.tape);
                             hashes.lock().unwrap()[i as usize] = h;
                         })
